@@ -26,6 +26,7 @@ CHECKS = {
     "C01": ("kv.checks.codec", "C01"),
     "C02": ("kv.checks.codec", "C02"),
     "C03": ("kv.checks.codec", "C03"),
+    "C04": ("kv.checks.shipped", "C04"),
     "C05": ("kv.checks.codec", "C05"),
     "C06": ("kv.checks.faults", "C06"),
     "C10": ("kv.checks.faults", "C10"),
